@@ -289,8 +289,11 @@ PO_INV = [("order_wf", "order_wf(order)"),
           ("inv_ctx", "om_ctx_wf(self)"), ("inv_lm_acc", "lm_acc(om_lm(self))"), ("inv_lm_coll_dom", "lm_coll_dom(om_lm(self))"),
           ("inv_lm_coll_nonneg", "lm_coll_nonneg(om_lm(self))"), ("inv_lm_loans_wf", "lm_loans_wf(om_lm(self))"),
           ("inv_orders_wf", "om_orders_wf(self)"), ("inv_holds_dom", "om_holds_dom(self)"), ("inv_holds_nonneg", "om_holds_nonneg(self)"),
+          ("inv_holds_maps", "forall(lambda k=Id: implies(k != order._id and (k in self._holds_by_order), old(k in self._holds_by_order) "
+                             "and same_object(self._holds_by_order[k], old(self._holds_by_order[k])) and content_unchanged(self._holds_by_order[k])))"),
+          ("inv_holds_gap", "holds_gap_same(self)"),
           ("inv_holds_sum", "om_holds_sum(self)")]
-OM_INVS = [x for x in PO_INV if x[0].startswith("inv_")]
+OM_INVS = [x for x in PO_INV if x[0].startswith("inv_") and x[0] not in ("inv_holds_maps", "inv_holds_gap")]
 contract(OM + "_process_order", props=P + ["C04", "C11"],
          types={"liquidity_strategy": "LiquidityStrategy"},
          requires=PO_REQ,
